@@ -62,7 +62,7 @@ def _decode(outcome):
 def _nontrivial(steps, ref):
     last = {}
     for s, r in zip(steps, ref):
-        if s[0] in ("c", "f"):
+        if s[0] in ("c", "f", "u"):
             key = (s[1], s[2])
             if key in last and last[key] != r:
                 return True
@@ -92,7 +92,7 @@ def _bucket(cell, h, steps, ref, got):
                 if t[0] in ("setcls", "delcls", "setinst", "delinst", "pyclass", "new"):
                     prev = t[0]
                     break
-            var = s[1] if s[0] in ("py", "c", "f", "setinst", "delinst") else "-"
+            var = s[1] if s[0] in ("py", "c", "f", "u", "setinst", "delinst") else "-"
             return "%s;step=%s;after=%s;obj=%s;dictlevel=%s;want=%s;got=%s" % (
                 cell, s[0], prev, _objkind(h, steps, var), h["dict_level"], _kind(r), _kind(g))
     return "%s;length;want=%d;got=%d" % (cell, len(ref), len(got))
